@@ -316,11 +316,14 @@ theorem shape_init : AuthShape.fingerprint "registry.init" = some AuthShape.regi
 theorem shape_requestableScope :
     AuthShape.fingerprint "requestableScope" = some AuthShape.requestableScope := by decide
 /-- The constants the model uses for the margin and the default lifetime are the
-ones in the fingerprinted calls (`Add(time.Second)`, `Add(60 * time.Second)`). -/
+ones in the fingerprinted calls (`Add(time.Second)`, `Add(60 * time.Second)`).
+-- F41: the other lifetime is `seconds` (the clamped `expires_in`: `consumer_as_modelled` in `Props/C10T.lean`
+-- pins the clamp, `maxExpirySec` is `math.MaxInt64 / int64(time.Second)`) times `time.Second`. -/
 theorem time_constants :
-    marginMs = 1000 ∧ defaultExpirySec = 60 ∧
+    marginMs = 1000 ∧ defaultExpirySec = 60 ∧ maxExpirySec = 9223372036854775807 / 1000000000 ∧
     "r.deleteExpiredTokens(time.Now().UTC().Add(time.Second))" ∈ AuthShape.registry_setAuthorization.calls ∧
-    "now.Add(60 * time.Second)" ∈ AuthShape.registry_acquireAccessToken.calls := by decide
+    "now.Add(60 * time.Second)" ∈ AuthShape.registry_acquireAccessToken.calls ∧
+    "now.Add(time.Duration(seconds) * time.Second)" ∈ AuthShape.registry_acquireAccessToken.calls := by decide
 
 /-! ### The hypotheses are satisfiable by non-trivial values -/
 
